@@ -1,0 +1,213 @@
+//go:build verif
+
+// Contracts for the verification machinery in /verif (comment-only; compiled only with -tags verif).
+
+package jsoncanonicalizer
+
+// ---- C07: the scanner underneath the canonicalizer ----
+//
+// Transform is one function made of fifteen func literals sharing the captured variables index, jsonData,
+// jsonDataLength and globalError. The contracts below name those variables directly (see cells.go in /verif/govc).
+// What is decided here (for every input, no bound): the read position stays inside the input; the FIRST error is
+// latched and returned; whitespace skipping, end-of-input handling and the look-ahead are exactly what the grammar needs;
+// the member-name comparison is the lexicographic order on UTF-16 code units and reports equal names as duplicates.
+// What RFC 8785 says about the produced text (escapes, number format, member order in the output) is NOT decided here:
+// it is the subject of the bounded differential check.
+//
+//@ spec ws(c byte) bool { c == 32 || c == 10 || c == 13 || c == 9 }
+//@ spec posOK(index int, jsonDataLength int, jsonData bytes) bool { 0 <= index && index <= jsonDataLength && jsonDataLength == len(jsonData) }
+//
+// position of the first byte at or after i that is not whitespace (the input length if there is none): a definition, the
+// first such position exists by well-ordering
+//@ spec sigPos(d bytes, i int) int
+//@ axiom sigpos-def: forall d bytes, i int :: 0 <= i && i <= len(d) ==> i <= sigPos(d, i) && sigPos(d, i) <= len(d) && (sigPos(d, i) < len(d) ==> !ws(d[sigPos(d, i)])) && (forall k int :: i <= k && k < sigPos(d, i) ==> ws(d[k]))
+//
+// lexicographic order on UTF-16 code units: a strictly precedes b
+//@ spec u16Less(a []uint16, b []uint16) bool { exists p int :: 0 <= p && p <= len(a) && p <= len(b) && (forall k int :: 0 <= k && k < p ==> a[k] == b[k]) && ((p < len(a) && p < len(b) && a[p] < b[p]) || (p == len(a) && p < len(b))) }
+//@ spec u16Eq(a []uint16, b []uint16) bool { len(a) == len(b) && forall k int :: 0 <= k && k < len(a) ==> a[k] == b[k] }
+//
+// container/list holds what was inserted: every insertion is obliged to insert a nameValueType (requires), reads rely on it
+//@ extern container/list.New
+//@   ensures result != nil && fresh(result)
+//@ extern (*container/list.List).PushBack
+//@   requires isType(v, "nameValueType")
+//@ extern (*container/list.List).InsertBefore
+//@   requires isType(v, "nameValueType")
+//@ extern (*container/list.List).Front
+//@   assumes result != nil ==> isType(result.Value, "nameValueType")
+//@ extern (*container/list.Element).Next
+//@   assumes result != nil ==> isType(result.Value, "nameValueType")
+//
+// ES6 number formatting: no effect on memory (its text result is the subject of the bounded differential check)
+//@ func NumberToJSON
+//@   ensures true
+//
+//@ func Transform
+//@   closure 1
+//      checkError: only the first error is kept
+//@     ensures old(globalError) != nil ==> globalError == old(globalError)
+//@     ensures old(globalError) == nil ==> globalError == e
+//@     modifies globalError
+//@   end
+//@   closure 2
+//      setError: afterwards an error is recorded, an earlier one is kept
+//@     ensures globalError != nil
+//@     ensures old(globalError) != nil ==> globalError == old(globalError)
+//@     modifies globalError
+//@   end
+//@   closure 3
+//@     ensures result == ws(c)
+//@   end
+//@   closure 4
+//      nextChar: consumes exactly one byte; at end of input reports an error and returns '"' without moving
+//@     requires posOK(index, jsonDataLength, jsonData)
+//@     ensures posOK(index, jsonDataLength, jsonData)
+//@     ensures old(index) < jsonDataLength ==> index == old(index) + 1 && result == jsonData[old(index)]
+//@     ensures old(index) >= jsonDataLength ==> index == old(index) && result == 34 && globalError != nil
+//@     ensures result > 127 ==> globalError != nil
+//@     ensures old(globalError) != nil ==> globalError == old(globalError)
+//@     modifies index, globalError
+//@   end
+//@   closure 5
+//      scan: skips whitespace and consumes the next significant byte
+//@     requires posOK(index, jsonDataLength, jsonData)
+//@     loop 1
+//@       invariant posOK(index, jsonDataLength, jsonData) && index >= old(index)
+//@       invariant jsonDataLength == old(jsonDataLength) && jsonData == old(jsonData)
+//@       invariant framed()
+//@       invariant old(globalError) != nil ==> globalError == old(globalError)
+//@       invariant forall k int :: old(index) <= k && k < index ==> ws(jsonData[k])
+//@     ensures posOK(index, jsonDataLength, jsonData) && index >= old(index)
+//@     ensures !ws(result)
+//@     ensures index > old(index) ==> (forall k int :: old(index) <= k && k < index - 1 ==> ws(jsonData[k]))
+//@     ensures globalError == nil ==> index > old(index) && result == jsonData[index - 1]
+//@     ensures result != 34 ==> index > old(index)
+//@     ensures sigPos(jsonData, old(index)) < jsonDataLength ==> index == sigPos(jsonData, old(index)) + 1 && result == jsonData[sigPos(jsonData, old(index))]
+//@     ensures sigPos(jsonData, old(index)) >= jsonDataLength ==> index == jsonDataLength && result == 34 && globalError != nil
+//@     ensures old(globalError) != nil ==> globalError == old(globalError)
+//@     modifies index, globalError
+//@   end
+//@   closure 6
+//      scanFor: without error the next significant byte was the expected one
+//@     requires posOK(index, jsonDataLength, jsonData)
+//@     ensures posOK(index, jsonDataLength, jsonData) && index >= old(index)
+//@     ensures globalError == nil ==> index > old(index) && jsonData[index - 1] == expected
+//@     ensures old(globalError) != nil ==> globalError == old(globalError)
+//@     modifies index, globalError
+//@   end
+//@   closure 7
+//      getUEscape: four bytes, hex-decoded
+//@     requires posOK(index, jsonDataLength, jsonData)
+//@     ensures posOK(index, jsonDataLength, jsonData) && index >= old(index)
+//@     ensures globalError == nil ==> index == old(index) + 4
+//@     ensures old(globalError) != nil ==> globalError == old(globalError)
+//@     modifies index, globalError
+//@   end
+//@   closure 8
+//      testNextNonWhiteSpaceChar: a look-ahead, the position is restored
+//@     requires posOK(index, jsonDataLength, jsonData)
+//@     ensures index == old(index)
+//@     ensures !ws(result)
+//@     ensures sigPos(jsonData, index) < jsonDataLength ==> result == jsonData[sigPos(jsonData, index)]
+//@     ensures sigPos(jsonData, index) >= jsonDataLength ==> result == 34 && globalError != nil
+//@     ensures old(globalError) != nil ==> globalError == old(globalError)
+//@     modifies globalError
+//@   end
+//@   closure 9
+//      decorateString: touches none of the shared variables
+//@     loop 1
+//@       invariant framed()
+//@     loop 2
+//@       invariant framed()
+//@     ensures true
+//@   end
+//@   closure 10
+//@     requires posOK(index, jsonDataLength, jsonData)
+//@     loop 1
+//@       invariant posOK(index, jsonDataLength, jsonData) && index >= old(index)
+//@       invariant jsonDataLength == old(jsonDataLength) && jsonData == old(jsonData)
+//@       invariant framed()
+//@       invariant old(globalError) != nil ==> globalError == old(globalError)
+//@     ensures posOK(index, jsonDataLength, jsonData) && index >= old(index)
+//@     ensures old(globalError) != nil ==> globalError == old(globalError)
+//      without error the string was closed by a quote (an unterminated string is rejected)
+//@     ensures globalError == nil ==> index > old(index) && jsonData[index - 1] == 34
+//@     modifies index, globalError
+//@   end
+//@   closure 11
+//      parseSimpleType: re-reads the byte that selected it
+//@     requires posOK(index, jsonDataLength, jsonData) && index >= 1
+//@     loop 1
+//@       invariant posOK(index, jsonDataLength, jsonData) && index >= old(index) - 1
+//@       invariant jsonDataLength == old(jsonDataLength) && jsonData == old(jsonData)
+//@       invariant framed()
+//@       invariant old(globalError) != nil ==> globalError == old(globalError)
+//@     ensures posOK(index, jsonDataLength, jsonData) && index >= old(index) - 1
+//@     ensures old(globalError) != nil ==> globalError == old(globalError)
+//@     modifies index, globalError
+//@   end
+//@   closure 12
+//@     requires posOK(index, jsonDataLength, jsonData)
+//@     ensures posOK(index, jsonDataLength, jsonData) && index >= old(index)
+//@     ensures old(globalError) != nil ==> globalError == old(globalError)
+//@     ensures jsonDataLength == old(jsonDataLength) && jsonData == old(jsonData)
+//@     modifies *
+//@   end
+//@   closure 13
+//@     requires posOK(index, jsonDataLength, jsonData)
+//@     loop 1
+//@       invariant posOK(index, jsonDataLength, jsonData) && index >= old(index)
+//@       invariant jsonDataLength == old(jsonDataLength) && jsonData == old(jsonData)
+//@       invariant old(globalError) != nil ==> globalError == old(globalError)
+//@     ensures posOK(index, jsonDataLength, jsonData) && index >= old(index)
+//@     ensures old(globalError) != nil ==> globalError == old(globalError)
+//@     ensures jsonDataLength == old(jsonDataLength) && jsonData == old(jsonData)
+//      without error the array was closed by ']' (an unterminated array is rejected)
+//@     ensures globalError == nil ==> index > old(index) && jsonData[index - 1] == 93
+//@     modifies *
+//@   end
+//@   closure 14
+//      lexicographicallyPrecedes: strict lexicographic order on UTF-16 code units; equal names are an error
+//@     params sortKey, e
+//@     requires e != nil && isType(e.Value, "nameValueType")
+//@     loop 1
+//@       invariant 0 <= q && q <= minLength && minLength <= len(sortKey) && minLength <= len(oldSortKey)
+//@       invariant minLength == len(sortKey) || minLength == len(oldSortKey)
+//@       invariant forall k int :: 0 <= k && k < q ==> sortKey[k] == oldSortKey[k]
+//@       invariant oldSortKey == unbox(e.Value, "nameValueType").sortKey
+//@       invariant globalError == old(globalError)
+//@     ensures result == u16Less(sortKey, unbox(e.Value, "nameValueType").sortKey)
+//@     ensures u16Eq(sortKey, unbox(e.Value, "nameValueType").sortKey) ==> globalError != nil
+//@     ensures !u16Eq(sortKey, unbox(e.Value, "nameValueType").sortKey) ==> globalError == old(globalError)
+//@     ensures old(globalError) != nil ==> globalError == old(globalError)
+//@     modifies globalError
+//@   end
+//@   closure 15
+//@     requires posOK(index, jsonDataLength, jsonData)
+//@     loop 1
+//@       invariant posOK(index, jsonDataLength, jsonData) && index >= old(index)
+//@       invariant jsonDataLength == old(jsonDataLength) && jsonData == old(jsonData)
+//@       invariant old(globalError) != nil ==> globalError == old(globalError)
+//@     loop 2
+//@       invariant posOK(index, jsonDataLength, jsonData) && index >= old(index)
+//@       invariant jsonDataLength == old(jsonDataLength) && jsonData == old(jsonData)
+//@       invariant old(globalError) != nil ==> globalError == old(globalError)
+//@       invariant e != nil ==> isType(e.Value, "nameValueType")
+//@     loop 3
+//@       invariant posOK(index, jsonDataLength, jsonData) && index >= old(index)
+//@       invariant jsonDataLength == old(jsonDataLength) && jsonData == old(jsonData)
+//@       invariant old(globalError) != nil ==> globalError == old(globalError)
+//@       invariant e != nil ==> isType(e.Value, "nameValueType")
+//@     ensures posOK(index, jsonDataLength, jsonData) && index >= old(index)
+//@     ensures old(globalError) != nil ==> globalError == old(globalError)
+//@     ensures jsonDataLength == old(jsonDataLength) && jsonData == old(jsonData)
+//      without error the object was closed by '}' (an unterminated object is rejected)
+//@     ensures globalError == nil ==> index > old(index) && jsonData[index - 1] == 125
+//@     modifies *
+//@   end
+//   the error that is returned is the latched one; success means the whole input was consumed
+//@   loop 1
+//@     invariant posOK(index, jsonDataLength, jsonData) && jsonDataLength == len(jsonData)
+//@   ensures e == globalError
+//@   ensures e == nil ==> index == len(jsonData)
+//@   modifies *
